@@ -1,5 +1,6 @@
 """C08 -- branches, loops, break/continue/return do what their syntax says (spec/AnkoSem.tla)."""
-import vlib, corecheck, progs
+import os
+import vlib, corecheck, progs, frames
 
 LEVEL = "model_checking"
 RULE = ("Every program of the bounded family (all nestings to depth D of 13 control wrappers x 8 control leaves, truthiness pool, switch and for-in "
@@ -17,10 +18,14 @@ def families(ctx):
 
 def run(ctx):
     binp = vlib.build_harness(ctx, "vmharness")
+    trace = os.path.join(ctx.work, "hook_trace.ndjson")
     ctx.assumptions += ["float conditions by spelling only (no float arithmetic in AnkoSem)", "value of a statement list without explicit return is not asserted",
                         "map iteration order not asserted (logs compared as multisets)", "finally on a control transfer is left open by the statement"]
     for tag, fam in families(ctx):
-        corecheck.run_family(ctx, binp, fam, tag)
+        corecheck.run_family(ctx, binp, fam, tag, env={"VERIF_TRACE": trace})
+    # code -> spec: the hook traces of all those runs, and of the repository's own vm tests, against the frame machine
+    rt, _ = frames.repo_test_trace(ctx)
+    frames.check(ctx, "C08", [("families", trace), ("repo-vm-tests", rt)], 60000 if ctx.quick() else 600000)
     return vlib.finish(ctx, RULE, exhaustive=True)
 
 
